@@ -20,6 +20,10 @@ pub struct Trace {
     pub verif_seed: u64,
     pub run_index: u64,
     pub exact_data: bool,
+    /// the run executes on a freshly spawned OS thread and its final check also asks a second
+    /// fresh thread (hidden thread-local state in the library would show as a difference); a
+    /// replay runs on the main thread of a fresh process, which is equally pristine
+    pub isolated: bool,
     pub tapes: [TapeSpec; 2],
     pub events: Vec<Event>,
     /// informational: the swarm knobs the scheduler drew for this run
@@ -39,6 +43,7 @@ impl Trace {
             "verif_seed": self.verif_seed,
             "run_index": self.run_index,
             "exact_data": self.exact_data,
+            "isolated": self.isolated,
             "tapes": [self.tapes[0].to_json(), self.tapes[1].to_json()],
             "events": self.events.iter().map(|e| e.to_json()).collect::<Vec<_>>(),
             "knobs": self.knobs,
@@ -68,6 +73,7 @@ impl Trace {
             verif_seed: v.get("verif_seed").and_then(|x| x.as_u64()).unwrap_or(0),
             run_index: v.get("run_index").and_then(|x| x.as_u64()).unwrap_or(0),
             exact_data: v.get("exact_data").and_then(|x| x.as_bool()).unwrap_or(false),
+            isolated: v.get("isolated").and_then(|x| x.as_bool()).unwrap_or(false),
             tapes: [TapeSpec::from_json(&tapes[0])?, TapeSpec::from_json(&tapes[1])?],
             events: evs,
             knobs: v.get("knobs").cloned().unwrap_or(Value::Null),
@@ -152,14 +158,15 @@ pub fn exec_probe<M: Machine>(tr: &Trace, stats: &mut Stats, mut probe: Option<&
             if let Some(p) = probe.as_deref_mut() {
                 p.push(w.get(*a).map(|s| M::fingerprint(&s.st)).unwrap_or_else(|| "<no such slot>".into()));
             }
-            let cfg = CheckCfg { prop, confs, exact_data: tr.exact_data };
+            let cfg = CheckCfg { prop, confs, exact_data: tr.exact_data, pristine: false };
             if let Some(v) = check_slot::<M>(&w, *a, cfg, stats) {
                 return (Some(v), reach);
             }
         }
     }
     for i in w.live() {
-        let cfg = CheckCfg { prop, confs: &all_confs, exact_data: tr.exact_data };
+        // the final check also compares with a pristine thread (one spawn per live slot)
+        let cfg = CheckCfg { prop, confs: &all_confs, exact_data: tr.exact_data, pristine: tr.isolated && prop == Prop::C09 && M::FAMILY != Family::Sum };
         if let Some(s) = w.get(i) {
             reach.trees.push(s.model.tree);
             reach.records += s.model.total();
@@ -290,6 +297,7 @@ pub fn generate<M: Machine>(property: &str, verif_seed: u64, run: u64, size: Siz
         verif_seed,
         run_index: run,
         exact_data,
+        isolated: run % 16 == 0,
         tapes,
         events: Vec::new(),
         knobs,
